@@ -90,13 +90,21 @@ Definition disagreeing (k : root_ctx_case) : list string :=
   end.
 
 (* finding class KF_C08_3 (the first registration wins): every disagreeing name is bound (or unbound) more than once
-   by Python, or registered more than once by rattr (an assignment to alpha.attr, an annotation `alpha: int` register
-   alpha) - counting the interpreter's own initial binding of a builtin or dunder name *)
+   by Python, or registered more than once by rattr, or more than one statement says something about it (an
+   assignment to alpha.attr, an annotation `alpha: int` register alpha; `import alpha.x` binds alpha for Python only)
+   - counting the interpreter's own initial binding of a builtin or dunder name *)
 Definition times_offered (k : root_ctx_case) (n : string) : nat :=
   List.length (filter (fun s => String.eqb (s_name s) n) (flat_map (binds (rk_base k) (rk_is_init k)) (rk_stmts k))).
+(* the statements that say something about n: Python binds / unbinds it there, or rattr registers it there (the two
+   differ: `n.attr = 1` and `n: int` register n, `import n.x` binds n) *)
+Definition touches (k : root_ctx_case) (n : string) (st : tstmt) : bool :=
+  existsb (fun e => match e with PBind s => String.eqb (s_name s) n | PUnbind m => String.eqb m n | PUnknown => false end)
+          (py_events (rk_base k) (rk_is_init k) st)
+  || existsb (fun s => String.eqb (s_name s) n) (binds (rk_base k) (rk_is_init k) st).
+Definition times_touched (k : root_ctx_case) (n : string) : nat := List.length (filter (touches k n) (rk_stmts k)).
 Definition rebound (k : root_ctx_case) (n : string) : bool :=
   let init := match scope_get (rk_init k) n with Some _ => 1 | None => 0 end in
-  Nat.leb 2 (times_bound (events_of k) n + init) || Nat.leb 2 (times_offered k n + init).
+  Nat.leb 2 (times_bound (events_of k) n + init) || Nat.leb 2 (times_offered k n + init) || Nat.leb 2 (times_touched k n + init).
 
 (* 1: model <> rattr; 2: rattr's root context disagrees with Python's binding rules; 4: ... only on rebound names *)
 Definition rootspec_code (k : root_ctx_case) : nat :=
